@@ -91,3 +91,31 @@ PROPS["C15"] = {
                      "simulated": ["the autonomous loop supplying tm", "dashboard edits", "state-function bodies (generated)"]},
     "assumptions": ["single thread", "one in-state action per call", "tm strictly increasing inside a period"],
 }
+
+ENGINE_TEXT["timers"] = "NotifierDelay on the real HAL notifier with the wake-up source replaced by the scheduler; Toggle/ButtonDebouncer/PeriodicFilter/SimpleWatchdog under seeded (advance, input, accessor) histories on the paused clock"
+PROPS["C16"] = {
+    "engine": "timers", "level": "exploration",
+    "rule": "seeded periods (>= 1 ms, incl. values whose microsecond conversion truncates) and loop-body durations shorter than / equal to / several times the period, late wake-ups, free()/with-exit/double free at random points followed by more wait() calls; non-trivial = an overrun followed by a wait that sleeps again (catch-up observed); distinct = distinct sequence of (op, sleep/exact/overrun class)",
+    "level_text": "seeded search over loop-timing schedules on the real HAL notifier; every wait() checked against the t0 + k*P grid exactly in integer microseconds; sampling, not proof",
+    "level_note": "trusted: WPILib HAL simulation notifier implementation; the period is read at the HAL's 1 us resolution (any fixed integer p with |p - P*1e6| < 1); one NotifierDelay alive at a time",
+    "quick": {"runs": 9000, "wall_s": 150}, "thorough": {"runs": 400000, "wall_s": 1500},
+    "probes_expected": ["wait_slept", "wait_exact", "wait_overrun", "caught_up_after_overrun", "wait_after_free", "freed_by_exit", "freed_by_free_twice"],
+    "state_measure": "(op, wait class) pairs and their successions, hashed",
+    "real_vs_stub": {"real": ["robotpy_ext.misc.precise_delay.NotifierDelay", "HAL notifier bookkeeping (initialize/update/wait/stop/clean)", "HAL simulated clock"],
+                     "simulated": ["the loop body durations", "who advances time while the loop sleeps (hal.waitForNotifierAlarm seam)", "late wake-ups"]},
+    "assumptions": ["single thread", "wake-ups are never early (the real HAL wait only returns once the clock reached the alarm)"],
+}
+PROPS["C19"] = {
+    "engine": "timers", "level": "exploration",
+    "rule": "seeded (clock advance, button level / log level / watchdog call, accessor) histories with advances on, one tick before and after the period; one of Toggle, Toggle+debounce, ButtonDebouncer (+set_debounce_period), PeriodicFilter, SimpleWatchdog per run; non-trivial = at least two toggles / Trues / passed records, or a warning plus two expiry queries; distinct = distinct (input, outcome) sequence",
+    "level_text": "seeded search over sampling histories on the paused HAL clock, each sample checked against the property's sentences (edge-triggered toggle, on == not off, debounce spacing, bypass level, expiry iff elapsed > timeout, warning rate); sampling, not proof",
+    "level_note": "trusted: HAL simulated clock; time.monotonic in periodic_filter replaced by a shim onto it; exact comparison on 1/64 s grid runs, 1e-7 s dead band at boundaries on microsecond runs",
+    "quick": {"runs": 9000, "wall_s": 150}, "thorough": {"runs": 400000, "wall_s": 1500},
+    "probes_expected": ["kind_toggle", "kind_toggle_db", "kind_debouncer", "kind_pfilter", "kind_watchdog", "toggle_changes", "debounced_second_change",
+                        "debouncer_true", "debouncer_suppressed", "pfilter_low_passed", "pfilter_low_blocked", "watchdog_warning", "watchdog_warning_rate_limited",
+                        "watchdog_expired_True", "watchdog_expired_False"],
+    "state_measure": "(input, outcome) pairs and their successions, hashed",
+    "real_vs_stub": {"real": ["robotpy_ext.control.toggle.Toggle", "robotpy_ext.control.button_debouncer.ButtonDebouncer", "robotpy_ext.misc.periodic_filter.PeriodicFilter", "robotpy_ext.misc.simple_watchdog.SimpleWatchdog", "HAL simulated clock", "logging"],
+                     "simulated": ["joystick (plain object with getRawButton)", "time.monotonic (shim onto the simulated clock)", "callers and their timing"]},
+    "assumptions": ["single thread", "ButtonDebouncer: before its first True the 'last True' is taken as boot (clock 0)", "SimpleWatchdog checked only after its first reset/enable/setTimeout"],
+}
